@@ -67,6 +67,15 @@ func NewFSTree(name, location string) (storage.Interface, error) {
 	}, nil
 }
 
+// inScope returns whether the given (cleaned) path is the base path itself or
+// located below it. A plain prefix comparison is not enough, as it would also
+// accept sibling directories that merely share the base path as a name prefix.
+func (fst *FSTree) inScope(path string) bool {
+	separator := string(filepath.Separator)
+	return path == fst.basePath ||
+		strings.HasPrefix(path, strings.TrimSuffix(fst.basePath, separator)+separator)
+}
+
 func (fst *FSTree) buildFilePath(key string, checkKeyLength bool) (string, error) {
 	// check key length
 	if checkKeyLength && len(key) < 1 {
@@ -74,8 +83,13 @@ func (fst *FSTree) buildFilePath(key string, checkKeyLength bool) (string, error
 	}
 	// build filepath
 	dstPath := filepath.Join(fst.basePath, key) // Join also calls Clean()
-	if !strings.HasPrefix(dstPath, fst.basePath) {
+	if !fst.inScope(dstPath) {
 		return "", fmt.Errorf("fstree: key integrity check failed, compiled path is %s", dstPath)
+	}
+	// A record key must name a file below the base path, not the base path itself:
+	// writing it would stage a temporary file next to (outside of) the base path.
+	if checkKeyLength && dstPath == fst.basePath {
+		return "", fmt.Errorf("fstree: key integrity check failed, key %q refers to the database directory", key)
 	}
 	// return
 	return dstPath, nil
@@ -197,7 +211,7 @@ func (fst *FSTree) queryExecutor(walkRoot string, queryIter *iterator.Iterator, 
 
 		if info.IsDir() {
 			// skip dir if not in scope
-			if !strings.HasPrefix(path, fst.basePath) {
+			if !fst.inScope(path) {
 				return filepath.SkipDir
 			}
 			// continue
@@ -205,7 +219,7 @@ func (fst *FSTree) queryExecutor(walkRoot string, queryIter *iterator.Iterator, 
 		}
 
 		// still in scope?
-		if !strings.HasPrefix(path, fst.basePath) {
+		if !fst.inScope(path) {
 			return nil
 		}
 
